@@ -1,5 +1,5 @@
 CONSTANTS Budget = 7 MaxItems = 3 Sim = TRUE Headers = "all"
-  Masked = {"pas_var"}
+  Masked = {}
 SPECIFICATION Spec
 INVARIANTS PendingInvisible TargetsAreBinders Balanced ScopeDeclarative
 CHECK_DEADLOCK FALSE
